@@ -379,6 +379,32 @@ def collectFrom (H : Heap) (a : ActionIn) (c : Cache) (t : List Entry) : Collect
 /-- a snapshot action on its own -/
 def collect (H : Heap) (a : ActionIn) : Outcome := (collectFrom H a [] []).outcome
 
+/-! ### the class name of `self` (`_process_frame` reads it for every frame, collected or not) -/
+
+/-- `f_locals.get('self', None)` with the `is not None` test: the object bound to the local `self`, unless it is `None` -/
+def selfOf (H : Heap) (locals : ObjId) : Option ObjId :=
+  match (H.obj locals).dictItems.find? (fun kv => kv.1.isStr && kv.1.text == "self") with
+  | none => none
+  | some kv => if (H.obj kv.2).tyName == "NoneType" then none else some kv.2
+
+/-- the first frame whose `_self.__class__.__name__` raises, when the read is not guarded: the exception leaves
+    `_process_frame` and the action produces no snapshot -/
+def selfClassFailure (H : Heap) : List FrameIn → Option String
+  | [] => none
+  | f :: fs =>
+    match selfOf H f.locals with
+    | none => selfClassFailure H fs
+    | some o =>
+      match (H.obj o).clsName with
+      | .ok _ => selfClassFailure H fs
+      | .raises m => if selfClassGuarded then selfClassFailure H fs else some m
+
+/-- the whole `_process_action`: the frame walk with its class-name reads, then the collection -/
+def snapshotAction (H : Heap) (a : ActionIn) : Outcome :=
+  match selfClassFailure H a.frames with
+  | some m => .failed m
+  | none => collect H a
+
 /-- what the trigger context could hand from one action to the next -/
 structure TrigState where
   cache : Cache
@@ -393,6 +419,7 @@ def processActions (H : Heap) : TrigState → List ActionIn → List Outcome
     let c0 := match cacheScope with | .perAction => [] | .perTrigger => ts.cache
     let t0 := match tableScope with | .perAction => [] | .perTrigger => ts.table
     let r := collectFrom H a c0 t0
-    r.outcome :: processActions H ⟨r.cache, r.table⟩ as
+    (match selfClassFailure H a.frames with | some m => .failed m | none => r.outcome) ::
+      processActions H ⟨r.cache, r.table⟩ as
 
 end Collector
